@@ -104,7 +104,7 @@ def r2(cx):
                 # normalise the element the name is built from: self.name in VError::to_tokenstream and t.name in a loop over idl.errors denote the same thing
                 owner = "error" if ("VError" in f.qual or (f.name == "generate_error_code")) else ("method" if f.name == "generate_anon_struct" else ("typedef-field" if "VStruct" in f.qual else f.qual))
                 sites.append(dict(fn=f.qual, line=e["line"], fmt=lit[0] if lit else "?", owner=owner, sink=e["args"][1].replace(" ", "")))
-    cx.floor("C09.R2", "to_rust_string emission sites", len(sites), 3)
+    cx.floor("C09.R2", "to_rust_string emission sites", len(sites), 2)
     groups = {}
     for s in sites: groups.setdefault((s["owner"], s["fmt"]), []).append(s)
     # does a sink reach the output? every TokenStream here is either `ts`/`tokenstream` (the output) or a local that is interpolated into it
